@@ -12,6 +12,8 @@ ENGINES = [
 ]
 
 HARNESSES = {
+    'C07': [dict(name='c07_interp', src=['C07_interp.cpp'], flavour='asan')],
+    'C06': [dict(name='c06_metric', src=['C06_metric.cpp'], flavour='asan')],
     'C05': [dict(name='c05_motion', src=['C05_motion.cpp'], flavour='asan')],
     'C10': [dict(name='c10_nn', src=['C10_nn.cpp'], flavour='hdr',
                  repo_src=['/repo/src/ompl/util/src/RandomNumbers.cpp', '/repo/src/ompl/util/src/Console.cpp', '/repo/src/ompl/util/src/ProlateHyperspheroid.cpp', '/repo/src/ompl/util/src/GeometricEquations.cpp'], cflags=['-O2'])],
@@ -25,7 +27,24 @@ NOT_APPLICABLE = {}
 HBFS_NOTE = ('Trusted: the harness reference model and canonical dump (read with -fno-access-control), g++ 12 with ASan. '
              'Silent outside the stated alphabet, size cap and depth; closure is claimed only where evidence.bounds.closure is true.')
 
+LPE_NOTE = ('Trusted: the harness oracles (independent long-double reference distances, law formulas), the stated tolerances, g++/ASan build of libompl. '
+            'Bounded-exhaustive over the lattice alphabets listed in evidence.bounds; silent about real values off the lattice.')
+
 PROPERTY_META = {
+    'C06': dict(
+        deadline_quick=240, deadline_thorough=1500, engine='E3-LPE', design_ref='5/C06',
+        technique='exhaustive enumeration of all ordered pairs and triples of a boundary-value state lattice per space configuration against the real distance()',
+        level_text='27 space configurations (R^n incl. negative/huge/zero-width bounds, SO(2), SO(3), SE(2), SE(3), time bounded/unbounded, discrete, torus, sphere r=1,3, '
+                   'Moebius x3, Klein bottle, Dubins plain/symmetric, Reeds-Shepp, wrappers, weighted and nested compounds, hybrid): every ordered pair of the lattice for '
+                   'non-negativity, identity, positivity, extent, symmetry-iff-claimed, compound = weighted sum; every ordered triple for the triangle law where isMetricSpace().',
+        level_note=LPE_NOTE),
+    'C07': dict(
+        deadline_quick=240, deadline_thorough=1500, engine='E3-LPE', design_ref='5/C07',
+        technique='exhaustive enumeration of all ordered lattice pairs x parameter alphabets (t; s,u) against the real interpolate()',
+        level_text='Same 27 space configurations: every ordered pair x t in a 7-value alphabet incl. 0, 1e-9, 1-1e-9, 1 for end points, bounds, output aliasing either input and '
+                   'proportional distance (geodesic spaces named in the statement); every pair x all (s,u) for re-parameterisation, checked up to the choice of shortest curve where '
+                   'that is not unique.',
+        level_note=LPE_NOTE),
     'C05': dict(
         deadline_quick=300, deadline_thorough=1500, engine='E3-LPE', design_ref='5/C05',
         technique='exhaustive enumeration of all 2^n validity assignments over the n subdivision points, for every n up to the bound, against the real motion validators',
